@@ -227,6 +227,27 @@ theorem ase_wavelength_strictAntiOn :
   obtain ⟨hh, hc, hm, he, -⟩ := ase_pos
   exact lambdaSpec_strictAntiOn hplanck c me qe hh hc hm he
 
+/-- the unit factor by which the code's sigma differs from `2π M e λ / h² · 10⁻²⁰` -/
+noncomputable def unitRatio : ℝ := kg * C * 10 ^ 20 / (s ^ 2 * J ^ 2)
+
+/-- at the constants of the installed ase the unit factor is 1 to within 10⁻¹⁵ (exact rational arithmetic on the float64 values) -/
+theorem unitRatio_close : |unitRatio - 1| ≤ 1 / 10 ^ 15 := by
+  unfold unitRatio kg C s J
+  rw [abs_le]
+  constructor <;> norm_num
+
+/-- At the actual constants (where ase's unit relations `J = 1/e`, `kg = 1/amu`, `s² = 10²⁰e/amu` hold only up to float64 rounding, so
+`sigma_formula` cannot be instantiated) the code's sigma is `2π M e λ / h² · 10⁻²⁰` times `unitRatio`, `|unitRatio − 1| ≤ 10⁻¹⁵`. -/
+theorem ase_sigma_formula (E : ℝ) (hE : 0 < E) :
+    energy2sigma E hplanck c me qe kg C s J
+      = .ok (2 * Real.pi * energy2mass E hplanck c me qe kg C s J * qe * lambdaSpec E hplanck c me qe / hplanck ^ 2 * 10⁻¹ ^ 20
+              * unitRatio) := by
+  obtain ⟨hh, hc, hm, he, hkg, hC, hs, hJ⟩ := ase_pos
+  simp only [energy2sigma, wavelength_formula E hplanck c me qe kg C s J hE he]
+  congr 1
+  unfold unitRatio
+  field_simp
+
 end ase
 
 /-! ### non-vacuity -/
